@@ -1,4 +1,5 @@
 import PsecModel.Props.C15
+import PsecModel.Props.C12
 /-!
 # C02 — TR-31 unwrap rejects every unauthentic or tampered key block (partial: reduction to MAC unforgeability)
 
@@ -288,6 +289,95 @@ theorem C02_full_of_no_forgery (c : Ciphers) (hc : c.Lawful) (kbpk : Bytes) (hnf
   intro s hs
   cases hr : unwrapFn c kbpk s with
   | ok r => exact absurd ⟨⟨r, hr⟩, hs⟩ (hnf s)
+  | error e => exact ⟨e, rfl, unwrapFn_errors c hc kbpk s e hr⟩
+
+/-! ## the reduction with the forgery stated on the authenticated triple
+
+`Forgery` above is "accepted but not genuine", which makes `C02_full_of_no_forgery` little more than `unwrapFn_errors`. The
+statements below carry the real content: an accepted string that is not a genuine block (up to hex case) exhibits a triple
+`(header section, key data, MAC)` whose authenticator verifies under the KBPK and which **no** genuine block carries — a
+MAC forgery in the standard sense (for B/D the MAC message is `header ‖ Dec(kbek, iv = mac, data)`, a bijective image of the
+triple; for A/C it is `header ‖ data` itself). -/
+
+/-- `g` carries the triple `(H, data, mac)` in canonical form, with a truthful length field -/
+def TripleOf (g H : PyStr) (data mac : Bytes) : Prop :=
+  g = H ++ toHexU data ++ toHexU mac ∧ 5 ≤ H.length ∧ decVal ((g.take 5).drop 1) = g.length
+
+theorem upper_toHexU (b : Bytes) : upper (toHexU b) = toHexU b := by
+  have h := (toHexU_chars b).1
+  rw [List.all_eq_true] at h
+  unfold upper
+  conv => rhs; rw [← List.map_id (toHexU b)]
+  apply List.map_congr_left
+  intro x hx
+  have := h x hx
+  unfold isUpperHexC isDigitC at this
+  unfold upperC
+  simp only [Bool.or_eq_true, Bool.and_eq_true, decide_eq_true_eq] at this
+  rw [if_neg (by omega)]; rfl
+
+/-- every genuine block carries a triple -/
+theorem genuine_triple (c : Ciphers) (hc : c.Lawful) (kbpk : Bytes) (g : PyStr) (hg : Genuine c kbpk g) :
+    ∃ H data mac, TripleOf g H data mac := by
+  obtain ⟨h, key, mask, e, hw, hwrap⟩ := hg
+  have hwrap' : KB.wrap c { kbpk := kbpk, header := h } key mask e = .ok g := hwrap
+  obtain ⟨bs, ml, n, body, pad, enc, mac, _, _, _, hle, hlf, _, hs, _, hdump, hn, _⟩ :=
+    Props.C12.wrap_framing c hc _ hw key mask e g hwrap'
+  refine ⟨_, enc, mac, hs, ?_, ?_⟩
+  · rw [assemble_length h hw _ _ _ hle hn]; omega
+  · rw [hlf, decVal_dec4s _ hle]
+
+/-- **uniqueness of the carrier**: an accepted decomposition and a genuine block with the same triple are the same string up to
+the letter case of hex digits — in particular whitespace smuggled into the binary section is impossible, because the length
+field inside the (authenticated) header section pins the total length -/
+theorem same_triple_same_block (s g H X Y : PyStr) (data mac : Bytes)
+    (hs : s = H ++ X ++ Y) (hx : fromHexWs X = some data) (hy : fromHexWs Y = some mac)
+    (hl : decVal ((s.take 5).drop 1) = s.length) (ht : TripleOf g H data mac) : SameUpToHexCase s g := by
+  obtain ⟨hg, h5, hgl⟩ := ht
+  have t1 : s.take 5 = H.take 5 := by
+    rw [hs, List.append_assoc, List.take_append_of_le_length h5]
+  have t2 : g.take 5 = H.take 5 := by
+    rw [hg, List.append_assoc, List.take_append_of_le_length h5]
+  have hlen : s.length = g.length := by rw [← hl, ← hgl, t1, t2]
+  have l1 := fromHexWs_len X data hx
+  have l2 := fromHexWs_len Y mac hy
+  have hsl : s.length = H.length + X.length + Y.length := by rw [hs]; simp; omega
+  have hgl' : g.length = H.length + 2 * data.length + 2 * mac.length := by rw [hg]; simp [toHexU_length]; omega
+  have e1 : X.length = 2 * data.length := by omega
+  have e2 : Y.length = 2 * mac.length := by omega
+  refine ⟨H, X ++ Y, toHexU data ++ toHexU mac, by rw [hs, List.append_assoc], by rw [hg, List.append_assoc], ?_⟩
+  unfold upper
+  rw [List.map_append, List.map_append]
+  have u1 := fromHexWs_tight X data hx e1
+  have u2 := fromHexWs_tight Y mac hy e2
+  have v1 := upper_toHexU data
+  have v2 := upper_toHexU mac
+  unfold upper at u1 u2 v1 v2
+  rw [u1, u2, v1, v2]
+
+/-- a MAC forgery under `kbpk`: a triple whose authenticator verifies and that no genuine block carries -/
+def MacForgery (c : Ciphers) (kbpk : Bytes) : Prop :=
+  ∃ ver H data mac, tagOf c ver kbpk H data mac = some mac ∧ ∀ g, Genuine c kbpk g → ¬ TripleOf g H data mac
+
+/-- **every accepted string is a genuine block up to hex case, or exhibits a MAC forgery** -/
+theorem accepted_genuine_or_forgery (c : Ciphers) (kbpk : Bytes) (s : PyStr) (r : Header × Bytes)
+    (hu : unwrapFn c kbpk s = .ok r) :
+    (∃ g, Genuine c kbpk g ∧ SameUpToHexCase s g) ∨ MacForgery c kbpk := by
+  obtain ⟨h, key⟩ := r
+  obtain ⟨H, X, Y, data, mac, ml, hs, _, _, hx, hy, _, hl, htag⟩ := unwrap_sound c kbpk s h key hu
+  by_cases hex : ∃ g, Genuine c kbpk g ∧ TripleOf g H data mac
+  · obtain ⟨g, hg, ht⟩ := hex
+    exact Or.inl ⟨g, hg, same_triple_same_block s g H X Y data mac hs hx hy hl ht⟩
+  · exact Or.inr ⟨h.versionId, H, data, mac, htag, fun g hg ht => hex ⟨g, hg, ht⟩⟩
+
+/-- **C02 in full from MAC unforgeability** -/
+theorem C02_full_of_no_mac_forgery (c : Ciphers) (hc : c.Lawful) (kbpk : Bytes) (hnf : ¬ MacForgery c kbpk) : C02_full c kbpk := by
+  intro s hs
+  cases hr : unwrapFn c kbpk s with
+  | ok r =>
+    cases accepted_genuine_or_forgery c kbpk s r hr with
+    | inl h => exact absurd h hs
+    | inr h => exact absurd h hnf
   | error e => exact ⟨e, rfl, unwrapFn_errors c hc kbpk s e hr⟩
 
 end Psec.Props.C02
